@@ -31,6 +31,7 @@ def run(repo, run, tier):
     # 'since construction or the last reset': reset() zeroes the counter on every path
     from .c13 import reset_unconditional
     reset_unconditional(repo, run, rule_id="C20.6")
+    callbacks_must_run(repo, run, m)
 
 
 def who_calls(repo, run):
@@ -250,3 +251,37 @@ def counter_ownership(repo, run):
     run.judged(rid, "DiffRHS.__copy__ builds a new DiffRHS around the same function with fresh counters", ok=ok)
     if not ok:
         run.report("C20.5", DS, cp, "DiffRHS.__copy__ does not build a fresh wrapper (with counters at zero) around the same function", text="DiffRHS.__copy__")
+
+
+# ------------------------------------------------------------------------------------------------
+def callbacks_must_run(repo, run, m):
+    """'exactly once per recorded step (the sub-steps taken to land on a terminal event share one final invocation)': every iteration of the step loop
+    that does not end in an exception reaches the callback loop -- in particular the iteration in which a terminal event stops the run.  A `break`,
+    `continue` or `return` that leaves the iteration before the callback loop skips the invocation (and the store of a step size a callback assigns)."""
+    rid = run.rule("C20.7", "must-pass-through: no `break` / `continue` / `return` of the step loop lies before the callback loop in the loop body (the iteration that "
+                            "handles a terminal event included): each recorded step gets its callback invocation", floor=1)
+    if m.cb_loop is None:
+        run.judged(rid, "callback loop present", ok=False)
+        return
+    k = path_key(m.cb_loop, m.fn)
+    jumps = []
+
+    def visit(stmts, inner_loop):
+        for st in stmts:
+            if isinstance(st, (ast.FunctionDef, ast.ClassDef, ast.Lambda)):
+                continue
+            if isinstance(st, ast.Return) or (isinstance(st, (ast.Break, ast.Continue)) and not inner_loop):
+                jumps.append(st)
+            for field in ("body", "orelse", "finalbody"):
+                sub = getattr(st, field, None)
+                if isinstance(sub, list):
+                    # the `else` of an inner loop is not inside that loop for break/continue purposes
+                    visit(sub, inner_loop or (isinstance(st, (ast.For, ast.While)) and field == "body"))
+            for h in getattr(st, "handlers", []) or []:
+                visit(h.body, inner_loop)
+    visit(m.loop.body, False)
+    early = [j for j in jumps if path_key(j, m.fn) < k]
+    run.judged(rid, "jumps out of the iteration before the callback loop: %d (of %d break/continue/return statements of the step loop)" % (len(early), len(jumps)), ok=not early)
+    for j in early:
+        run.report("C20.7", DS, j, "`%s` leaves the iteration of the step loop before the callback loop: the step recorded in this iteration (e.g. the one that lands on a terminal "
+                                   "event) gets no callback invocation, and the statements between here and the end of the body (the store of the next step size) are skipped" % src(j)[:40])
